@@ -18,14 +18,14 @@ CFFI = ["cffi: ffi.new_handle / ffi.from_handle are inverse (a handle is identif
         "raises RuntimeError; an int that does not fit `uint` raises OverflowError; extern \"Python\" callback "
         "event_valid_callback is HeapScheduler.event_valid_callback of the scheduler handle"]
 
-contract(H + "event_valid_callback", "C06", model="R", params={"event_handler_handle": "any", "counter": "int"},
+contract(H + "event_valid_callback", "C06", model="R", native_search=False, params={"event_handler_handle": "any", "counter": "int"},
          returns="bool",
          requires=["event_handler_handle is not None", "has(self._minimal_valid_counter, event_handler_handle)"],
          ensures=["result == (get(self._minimal_valid_counter, event_handler_handle) > counter)"],
          canary="result", trusted=CFFI,
          note="an entry is dead (to be removed lazily) iff its stored counter is below the handler's minimal valid counter")
 
-contract(H + "trash_event", "C06", model="R", params={"event_handler": "any"},
+contract(H + "trash_event", "C06", model="R", native_search=False, params={"event_handler": "any"},
          modifies=["dictof(self._minimal_valid_counter)"],
          ensures=["has(self._minimal_valid_counter, event_handler)",
                   "get(self._minimal_valid_counter, event_handler) == old(mvc(self, event_handler)) + 1",
@@ -35,8 +35,8 @@ contract(H + "trash_event", "C06", model="R", params={"event_handler": "any"},
          canary="get(self._minimal_valid_counter, event_handler) == 0",
          note="every stored entry of the handler becomes dead; other handlers' validity is untouched (frame)")
 
-contract(H + "push_event", "C06", model="R", params={"time": "Time", "event_handler": "any"},
-         inline=["__lt__"],
+contract(H + "push_event", "C06", model="R", native_search=False, params={"time": "Time", "event_handler": "any"},
+         inline=["__lt__", "__eq__", "__gt__", "__ge__", "__le__", "__ne__"],
          requires=["self._heap is not None", "wf(self._heap)", "self._heap.size <= 2**30", "time_ok(time)",
                    "event_handler is not None", "handles_ok(self)",
                    "not same(self._minimal_valid_counter, self._event_handler_handles)",
@@ -64,6 +64,94 @@ contract(H + "push_event", "C06", model="R", params={"time": "Time", "event_hand
              "mvc(self, event_handler) == old(mvc(self, event_handler)))",
              "implies(not isinf(time._quotient) and old(mvc(self, event_handler)) > 2**32 - 1, mvc(self, event_handler) == 0)",
              "handles_ok(self)",
+             # after a counter wrap-around no older entry of the handler can be resurrected: the only stored entry of
+             # the handler is the one just pushed
+             "implies(not isinf(time._quotient) and old(mvc(self, event_handler)) > 2**32 - 1 and "
+             "self._allocated_memory_bytes != 2**64 - 1, forall(1, self._heap.length, lambda j: implies("
+             "same(E(self._heap, j).event_handler, event_handler), E(self._heap, j).time_quotient == time._quotient and "
+             "E(self._heap, j).time_remainder == time._remainder and E(self._heap, j).counter == 0)))",
          ],
+         ghost={"args": {"insert": {"ghost_h": "event_handler"}}},
          canary="self._heap.length == old(self._heap.length)", trusted=CFFI,
          note="includes the counter wrap-around branch (OverflowError -> delete_events -> counter reset)")
+
+# every stored entry's handler has a validity counter (established by push_event, preserved by everything else)
+spec("entries_known(s)", "forall(1, s._heap.length, lambda j: has(s._minimal_valid_counter, E(s._heap, j).event_handler))")
+CALLBACK = ("forall(lambda h, c: implies(has(self._minimal_valid_counter, h), "
+            "(call_event_valid_callback(self._scheduler_handle, h, c) != 0) == (get(self._minimal_valid_counter, h) > c)))")
+
+contract(H + "get_succeeding_event", "C06", model="R", native_search=False, returns="any",
+         inline=["_event_time_increasing", "__lt__", "__eq__", "__gt__", "__ge__", "__le__", "__ne__"],
+         requires=["self._heap is not None", "wf(self._heap)", "entries_known(self)",
+                   "not has(self._minimal_valid_counter, None)",
+                   "time_or_minus_inf(self._last_returned_event[0])"],
+         assume=[CALLBACK],
+         modifies=["self._heap.length", "contents(self._heap.heap_entries)", "self._last_returned_event"],
+         may_raise={"SchedulerError": [
+             # an error is raised only if no live entry is left, or if time would run backwards
+             "self._heap.length <= 1 or E(self._heap, 1).time_quotient < old(self._last_returned_event[0]._quotient) or "
+             "(E(self._heap, 1).time_quotient == old(self._last_returned_event[0]._quotient) and "
+             "E(self._heap, 1).time_remainder < old(self._last_returned_event[0]._remainder))"]},
+         ensures=[
+             "wf(self._heap) and self._heap.length > 1",
+             "same(result, E(self._heap, 1).event_handler)",
+             # the returned event is live ...
+             "E(self._heap, 1).counter >= get(self._minimal_valid_counter, result)",
+             # ... and minimal among all stored entries (quotient first, then remainder)
+             "forall(1, self._heap.length, lambda j: not lt(E(self._heap, j), E(self._heap, 1)))",
+             "self._last_returned_event[0]._quotient == E(self._heap, 1).time_quotient and "
+             "self._last_returned_event[0]._remainder == E(self._heap, 1).time_remainder",
+         ],
+         ghost={"args": {"root": {"ghost_d": "self._minimal_valid_counter"}}},
+         canary="self._heap.length == 2", trusted=CFFI,
+         note="uses the contracts root and root#minimal of heap.c; the callback is tied to event_valid_callback (cffi)")
+spec("time_or_minus_inf(t)", "t is not None")
+spec("old_last(t)", "t")
+
+# ------------------------------------------------------------------------------------------ ListScheduler
+LS = "jellyfysh.scheduler.list_scheduler:ListScheduler."
+cls("_Element", time="Time", event_handler="any")
+cls("ListScheduler", _times="list[_Element]", _last_returned_event="tuple[Time,any]", _warn_on_equal_event_times="bool",
+    _logger_enabled_for_debug="bool")
+spec("T(s, j)", "s._times[j]")
+
+contract("jellyfysh.scheduler.list_scheduler:_Element.__eq__", "C06", model="R", params={"event_handler": "any"},
+         returns="bool", ensures=["result == same(self.event_handler, event_handler)"], canary="result",
+         note="elements are matched by the identity of their event handler")
+
+contract(LS + "push_event", "C06", model="R", params={"time": "Time", "event_handler": "any"},
+         modifies=["elems(self._times)"],
+         ensures=["len(self._times) == old(len(self._times)) + 1",
+                  "same(T(self, len(self._times) - 1).time, time) and same(T(self, len(self._times) - 1).event_handler, event_handler)",
+                  "fresh(T(self, len(self._times) - 1))",
+                  "forall(0, old(len(self._times)), lambda j: same(T(self, j), old(T(self, j))))"],
+         canary="len(self._times) == 1")
+
+contract(LS + "trash_event", "C06", model="R", params={"event_handler": "any"},
+         requires=["forall(0, len(self._times), lambda j: T(self, j) is not None)"],
+         modifies=["elems(self._times)"],
+         raises={"SchedulerError": "not exists(0, len(self._times), lambda j: same(T(self, j).event_handler, event_handler))"},
+         ensures=[
+             "len(self._times) == old(len(self._times)) - 1",
+             # exactly the first element of that handler is removed, the order of the others is kept
+             "exists(0, old(len(self._times)), lambda i: same(old(T(self, i)).event_handler, event_handler) and "
+             "forall(0, i, lambda j: not same(old(T(self, j)).event_handler, event_handler) and same(T(self, j), old(T(self, j)))) and "
+             "forall(i, len(self._times), lambda j: same(T(self, j), old(T(self, j + 1)))))"],
+         canary="len(self._times) == 0")
+
+contract(LS + "get_succeeding_event", "C06", model="R", returns="any",
+         inline=["_event_time_increasing", "__lt__", "__eq__", "__gt__", "__ge__", "__le__", "__ne__"],
+         requires=["forall(0, len(self._times), lambda j: T(self, j) is not None and T(self, j).time is not None)",
+                   "self._last_returned_event[0] is not None"],
+         modifies=["self._last_returned_event"],
+         may_raise={"SchedulerError": [
+             "len(self._times) == 0 or exists(0, len(self._times), lambda i: "
+             "lex_lt(T(self, i).time, old(self._last_returned_event[0])))"]},
+         ensures=[
+             "len(self._times) > 0",
+             # the handler of a stored event whose time no other stored event undercuts (quotient, then remainder)
+             "exists(0, len(self._times), lambda i: same(result, T(self, i).event_handler) and "
+             "forall(0, len(self._times), lambda j: not lex_lt(T(self, j).time, T(self, i).time)) and "
+             "same(self._last_returned_event[0], T(self, i).time))"],
+         canary="len(self._times) == 1",
+         note="infinite times are stored but lex_lt(finite, inf): never returned before a finite one")
